@@ -97,15 +97,26 @@ def arrays_same(now, then, tol):
     return bool(np.allclose(now.astype(float), then.astype(float), rtol=0, atol=tol * (1 + float(np.max(np.abs(then.astype(float)))) if then.size else 0)))
 
 
-def snap_close(a, b, tol):
+def memo_names(obj):
+    """memo attributes: the two private per-face memos and every functools.cached_property of the object's class (and of its nested
+    coxeter sub-objects) - a memo appearing in __dict__ is not a change of the shape (whether a memo goes stale is C03's matter)"""
+    names = set(MEMO)
+    seen = [obj] + [v for v in vars(obj).values() if hasattr(v, "__dict__") and type(v).__module__.startswith("coxeter")]
+    for o in seen:
+        for kl in type(o).__mro__:
+            names |= {k for k, m in vars(kl).items() if type(m).__name__ == "cached_property"}
+    return names
+
+
+def snap_close(a, b, tol, memo=frozenset(MEMO)):
     """like Z.snapshots_equal but tolerant (for move-and-restore) and allowing memo attributes to appear"""
-    keys = (set(a) | set(b)) - MEMO
+    keys = (set(a) | set(b)) - set(memo)
     for k in keys:
         if k not in a or k not in b:
             return False, "attribute %s %s" % (k, "appeared" if k in b else "vanished")
         x, y = a[k], b[k]
         if isinstance(x, dict):
-            ok, why = snap_close(x, y, tol)
+            ok, why = snap_close(x, y, tol, memo)
             if not ok:
                 return False, k + "." + why
         elif isinstance(x, np.ndarray):
@@ -166,7 +177,7 @@ def run(chk):
                 if st1 != "ok" or st2 != "ok":
                     chk.violation("query-raised-after-query", dict(desc, outcomes=[st1, st2])); continue
                 tol = 1e-12 if (a in MOVERS or b in MOVERS) else 0
-                same, why = snap_close(snap, Z.state_snapshot(obj), tol)
+                same, why = snap_close(snap, Z.state_snapshot(obj), tol, memo_names(obj))
                 if not same:
                     chk.violation("state-changed", dict(desc, attribute=why)); continue
                 for arr, cp in args:
